@@ -90,6 +90,18 @@ class _Query:
         return self.patches
 
 
+def _split_lines(contents: str) -> list[str]:
+    """Split source text into lines the way the tokenizer numbers them.
+
+    Only "\\n", "\\r\\n" and "\\r" end a line; str.splitlines() would also split at
+    form feeds and a few other separators, which shifts every later line number.
+    """
+    lines = re.split(r"\r\n|\r|\n", contents)
+    if lines and lines[-1] == "":
+        lines.pop()
+    return [line + "\n" for line in lines]
+
+
 class VisitorError(Exception):
     def __init__(
         self, message: str, error_code: Optional[ErrorCodeInstance] = None
@@ -222,7 +234,7 @@ class BaseNodeVisitor(ast.NodeVisitor):
         changes = collections.defaultdict(list)
         with qcore.override(self.__class__, "_changes_for_fixer", changes):
             result = self.check()
-        lines = [line + "\n" for line in self.contents.splitlines()]
+        lines = _split_lines(self.contents)
         if self.filename in changes:
             lines = self._apply_changes_to_lines(changes[self.filename], lines)
         return result, "".join(lines)
@@ -234,7 +246,7 @@ class BaseNodeVisitor(ast.NodeVisitor):
 
     @qcore.caching.cached_per_instance()
     def _lines(self) -> list[str]:
-        return [line + "\n" for line in self.contents.splitlines()]
+        return _split_lines(self.contents)
 
     @qcore.caching.cached_per_instance()
     def has_file_level_ignore(
